@@ -18,7 +18,7 @@ impl TextUnwrapper {
 
             None
         } else {
-            self.wrapped_line.push_str(line.text().trim_end());
+            self.wrapped_line.push_str(line.text().trim_end_matches(' '));
 
             Some(mem::take(&mut self.wrapped_line))
         }
